@@ -86,7 +86,8 @@ pub fn run(ctx: &Ctx) -> i32 {
             }
         }
         for (k, (name, p)) in pkgs.iter().enumerate() {
-            for op in ["signature.clear()", "signature = Header::new_empty()", "clear_signatures()", "signature.clear() then clear_signatures()"] {
+            let next = &pkgs[(k + 1) % pkgs.len()].1;
+            for op in ["signature.clear()", "signature = Header::new_empty()", "clear_signatures()", "signature.clear() then clear_signatures()", "signature.clone_from(the next package's)", "header.clone_from(the next package's)", "metadata.clone_from(the next package's)", "signature = the next package's, cloned"] {
                 h.evals += 1;
                 let mut q = p.clone();
                 match op {
@@ -95,6 +96,10 @@ pub fn run(ctx: &Ctx) -> i32 {
                     "clear_signatures()" => {
                         let _ = q.clear_signatures();
                     }
+                    "signature.clone_from(the next package's)" => q.metadata.signature.clone_from(&next.metadata.signature),
+                    "header.clone_from(the next package's)" => q.metadata.header.clone_from(&next.metadata.header),
+                    "metadata.clone_from(the next package's)" => q.metadata.clone_from(&next.metadata),
+                    "signature = the next package's, cloned" => q.metadata.signature = next.metadata.signature.clone(),
                     _ => {
                         q.metadata.signature.clear();
                         let _ = q.clear_signatures();
@@ -109,7 +114,7 @@ pub fn run(ctx: &Ctx) -> i32 {
             }
         }
     }
-    let s_api = SubReport::new("header-api", "A", "assets and built packages (unsigned / Ed25519 / RSA-2048) after Header::clear() on the signature header, Header::new_empty(), clear_signatures() and their combination: offsets vs the written bytes", h);
+    let s_api = SubReport::new("header-api", "A", "assets and built packages (unsigned / Ed25519 / RSA-2048) after Header::clear() on the signature header, Header::new_empty(), clear_signatures(), their combination, and after the signature header / main header / metadata was overwritten in place with another package's (clone_from, assignment of a clone): offsets vs the written bytes", h);
     // packages as the builder hands them over (never re-parsed): the reachable residues mod 8 of the main header's data section,
     // in the ordinary and in the large-file layout, unsigned and signed
     let mut bd = Acc::new();
